@@ -532,6 +532,12 @@ pub fn gen_rejected(r: &mut Sm, inst: &Instance) -> (String, Op) {
                     _ if c.pg.is_none() => c.pg = Some((1000, 1)),
                     _ => c.probe_period += 7,
                 }
+                if r.chance(60) {
+                    c.mps = *r.pick(&[40usize, 64, 700, 3000]);
+                    c.max_tx = 9;
+                    c.k = 1 + r.below(4) as usize;
+                    c.notify_down = !c.notify_down;
+                }
                 return ("invalid-config".into(), Op::SetCfg(c));
             }
             _ => {
